@@ -1395,6 +1395,16 @@ func (a *Agent) addRelayCandidates(ctx context.Context, ep relayEndpoint) {
 
 	addresses, ok := a.resolveRelayAddresses(ep)
 	if !ok {
+		// The relay endpoint is dropped: release the allocation and what it was made on.
+		if ep.closeConn != nil {
+			ep.closeConn()
+		}
+		if ep.onClose != nil {
+			if err := ep.onClose(); err != nil {
+				a.log.Warnf("Failed to release dropped relay endpoint: %v", err)
+			}
+		}
+
 		return
 	}
 
